@@ -247,6 +247,30 @@ func main() {
 	}
 	println(fs[0](), fs[1]())
 }`),
+		program("funcvalues", `package main
+import "host"
+var total int
+var trace []string
+func add(n int) { total += n }
+func done() { trace = append(trace, "done") }
+func twice(x int) int { total += x; return x * 2 }
+func each(xs []int, f func(int)) {
+	for _, x := range xs {
+		f(x)
+	}
+}
+func work(in int) {
+	defer done()
+	trace = append(trace, "work")
+	each([]int{in, 2, 3}, add)
+}
+func main() {
+	in := host.In()
+	work(in)
+	f := twice
+	println(host.Apply(f, in))
+	println("total:", total, "trace:", len(trace))
+}`),
 		program("goroutine", `package main
 import "host"
 func main() {
